@@ -5,7 +5,7 @@ from vlib import xhex, rnd_u64, rnd_bytes, U64
 from props.codec_common import CODEC_TRUSTED
 from props import c07
 
-THEOREMS = ["C14_null_on_invalid", "C14_null_on_empty", "C14_valid_gives_bundle", "C14_from_cbor_outcomes",
+THEOREMS = ["C14_no_abort_outside_new_default", "C14_null_on_invalid", "C14_null_on_empty", "C14_valid_gives_bundle", "C14_from_cbor_outcomes",
             "C14_agrees_with_rust_api", "C14_roundtrip_through_ffi", "C14_step_allocations", "C14_no_leak_no_double_free",
             "C14_net_allocations_zero", "C14_balanced_from", "C14_use_after_free_flagged", "C14_book_rejects_exactly_protocol_errors",
             "C14_aborts_only_on_caller_error", "C14_new_default_returns", "C14_pinned_refuted"]
@@ -17,7 +17,7 @@ RULE = ("FFI <op> ; <op> ...: call sequences create/decode -> query* -> free aga
         "of length <= 6 over one bundle and over two bundles (quick: <= 5 for two), re-decoding of re-encodings, bundle_new_default "
         "with the clock hook, plus seeded random walks; the examples/ffi/bp7-test.c sequence. Oracle on the implementation: "
         "undecodable/invalid -> NULL with no allocation left, never ABORT; valid -> non-NULL, metadata/payload/validity/re-encoding "
-        "equal to the Python reference; every free releases exactly what the creating call allocated; Buffer = struct + data "
+        "equal to the Python reference (metadata of a bundle whose EID text contains U+0000: NULL, nothing allocated); every free releases exactly what the creating call allocated; Buffer = struct + data "
         "(len > 0), metadata = struct + 2 strings; net allocations 0 once everything is freed. non-trivial = distinct line with at "
         "least one completed library call")
 TRUSTED_BASE = CODEC_TRUSTED + [
@@ -258,10 +258,16 @@ def corpus():
                      (b"dtn://a/", b"ipn:1"), (b"dtn://\xff/", b"dtn://b/"), (b"dtn://a/", b"ipn:1.18446744073709551616")]:
         out.append(line(["MK x41", _new(src, dst, 1, 0, clock)]))
     out.append(line(["MKNULL", _new(b"dtn://a/", b"dtn://b/", 1, 0, clock)]))
-    # a valid bundle whose EID text contains U+0000: CString::new(..).unwrap() in bundle_get_metadata (finding candidate)
-    for h in (NUL_SRC, NUL_DST):
-        _BUF[h] = dict(bundle=None, valid=True)
+    # a valid bundle whose EID text contains U+0000 is not representable as a C string: bundle_get_metadata returns NULL
+    # (the original code aborted in CString::new(..).unwrap()); everything else works on it
+    for h, src, dst in ((NUL_SRC, b"//a\x00b/", b"//d/x"), (NUL_DST, b"//ab/", b"//d/\x00")):
+        nb = dict(p=dict(ver=7, flags=0, crc=("N",), dst=("DTN", 1, dst), src=("DTN", 1, src), rpt=("NONE", 1, 0), t=5, seq=0, life=1000,
+                         foff=0, flen=0), cs=[dict(type=1, num=1, flags=0, crc=("N",), data=("DATA", b"hi"))])
+        assert xhex(genb.ref_bundle(nb)[0]) == h
+        _BUF[h] = dict(bundle=nb, valid=True)
         out.append(line(["MK " + h, "FROM 0", "VALID 1", "META 1", "BNDFREE 1", "DROP 0"]))
+        out.append(line(["MK " + h, "FROM 0", "META 1", "PAYLOAD 1", "TOCBOR 1", "META 1", "FROM 3", "META 4", "BFREE 2", "BFREE 3", "BNDFREE 4",
+                         "BNDFREE 1", "DROP 0"]))
     return out
 
 
@@ -433,7 +439,7 @@ def oracle(line_, out, mode):
                     return None      # caller error (documented by the unwraps / asserts of bundle_new_default)
                 return "bundle_new_default aborts the process on valid arguments"
             if name == "META":
-                return "bundle_get_metadata aborts the process (EID text with a NUL byte cannot be a C string)"
+                return "bundle_get_metadata aborts the process (an EID text with a NUL byte must give NULL)"
             if name == "FROM":
                 return "bundle_from_cbor aborts the process instead of returning NULL"
             return "%s aborts the process" % name
@@ -507,6 +513,16 @@ def oracle(line_, out, mode):
                 if want is not None and r[0] != ("T" if want else "F"):
                     return "bundle_is_valid = %s, the validation rules say %s" % (r[0], "T" if want else "F")
                 continue
+            if name == "META":
+                nul = None if mb is None else (b"\0" in eid_text(mb["p"]["src"]) or b"\0" in eid_text(mb["p"]["dst"]))
+                if r[0] == "NULL":
+                    if d != 0:
+                        return "bundle_get_metadata returned NULL but left %d allocation(s) behind" % d
+                    if nul is False:
+                        return "bundle_get_metadata returns NULL for a bundle whose EID texts are C strings"
+                    continue
+                if nul is True:
+                    return "bundle_get_metadata returned metadata for an EID text containing a NUL byte"
             if r[0] != "H%d" % nxt:
                 return "harness: unexpected handle"
             if name == "META":
@@ -559,11 +575,6 @@ def oracle(line_, out, mode):
 
 
 def known_class(line_, out):
-    if out and out.endswith("ABORT"):
-        ops = _ops_of(line_) or []
-        n = len(out[3:].split(" ; "))
-        if 0 < n <= len(ops) and ops[n - 1][0] == "META":
-            return "meta-nul"
     return None
 
 
